@@ -49,9 +49,23 @@ func (header *Header) SerializationMethod() (*SerializationMethod, error) {
 	return &SerializationMethod{Style: style, Explode: explode}, nil
 }
 
+// validatingHeadersKey is the context key of the set of headers being validated.
+type validatingHeadersKey struct{}
+
 // Validate returns an error if Header does not comply with the OpenAPI spec.
 func (header *Header) Validate(ctx context.Context, opts ...ValidationOption) error {
 	ctx = WithValidationOptions(ctx, opts...)
+
+	// a header's content may have an encoding whose headers lead back to this header
+	visiting, _ := ctx.Value(validatingHeadersKey{}).(map[*Header]struct{})
+	if _, ok := visiting[header]; ok {
+		return nil
+	}
+	if visiting == nil {
+		visiting = make(map[*Header]struct{})
+		ctx = context.WithValue(ctx, validatingHeadersKey{}, visiting)
+	}
+	visiting[header] = struct{}{}
 
 	if header.Name != "" {
 		return errors.New("header 'name' MUST NOT be specified, it is given in the corresponding headers map")
